@@ -5,6 +5,8 @@ usage: tools/benign_rename.py [reformat|suffix|scramble] [PID ...]
   reformat  every file replaced by ast.unparse(ast.parse(file))          (layout, comments, quoting change; AST identical)
   suffix    every function-local variable renamed  name -> name_q          (consistent alpha-renaming of locals)
   scramble  every function-local variable renamed  name -> l<6 hex digits> (no part of the old name survives)
+  pass      a `pass` statement inserted after every statement of every function body (except after return/break/continue/raise)
+  wrap      every function body wrapped in `if True:` ... (one more nesting level; statement order unchanged)
 Locals are names stored in the function body that are not parameters, not global/nonlocal, and not read by a nested function.
 The variant is written to a scratch directory (removed afterwards), every check is run with --repo <scratch>, and every
 VIOLATION / ANALYSIS-ERROR is printed: each one is a false alarm (or a broken anchor) of the checker, since the variant behaves
@@ -60,8 +62,50 @@ def rename_function(fn):
     rn(fn)
 
 
+class AddPass(ast.NodeTransformer):
+    def _pad(self, body):
+        out = []
+        for st in body:
+            out.append(st)
+            if not isinstance(st, (ast.Return, ast.Break, ast.Continue, ast.Raise, ast.FunctionDef, ast.AsyncFunctionDef, ast.ClassDef, ast.Import, ast.ImportFrom)):
+                out.append(ast.Pass())
+        return out
+
+    def generic_visit(self, node):
+        super().generic_visit(node)
+        if self.depth > 0:
+            for fld in ("body", "orelse", "finalbody"):
+                b = getattr(node, fld, None)
+                if isinstance(b, list) and b and isinstance(b[0], ast.stmt):
+                    setattr(node, fld, self._pad(b))
+        return node
+    depth = 0
+
+    def visit_FunctionDef(self, node):
+        self.depth += 1
+        self.generic_visit(node)
+        self.depth -= 1
+        return node
+    visit_AsyncFunctionDef = visit_FunctionDef
+
+
 def transform(src: str) -> str:
     t = ast.parse(src)
+    if mode == "pass":
+        t = AddPass().visit(t)
+        ast.fix_missing_locations(t)
+        return ast.unparse(t) + "\n"
+    if mode == "wrap":
+        for node in ast.walk(t):
+            if isinstance(node, (ast.FunctionDef, ast.AsyncFunctionDef)):
+                doc = node.body[:1] if node.body and isinstance(node.body[0], ast.Expr) and isinstance(node.body[0].value, ast.Constant) and isinstance(node.body[0].value.value, str) else []
+                rest = node.body[len(doc):]
+                decls = [s_ for s_ in rest if isinstance(s_, (ast.Global, ast.Nonlocal))]
+                rest = [s_ for s_ in rest if not isinstance(s_, (ast.Global, ast.Nonlocal))]
+                if rest:
+                    node.body = doc + decls + [ast.If(test=ast.Constant(True), body=rest, orelse=[])]
+        ast.fix_missing_locations(t)
+        return ast.unparse(t) + "\n"
     if mode != "reformat":
         for node in t.body:
             if isinstance(node, (ast.FunctionDef, ast.AsyncFunctionDef)):
@@ -73,11 +117,12 @@ def transform(src: str) -> str:
     return ast.unparse(t) + "\n"
 
 
+SRC = os.environ.get("BENIGN_SRC", "/repo")      # a clean snapshot can be used while /repo is being patched for a seed evaluation
 tmp = tempfile.mkdtemp(prefix="benign-")
 try:
     os.makedirs(f"{tmp}/src")
-    shutil.copytree("/repo/src/lian", f"{tmp}/src/lian", ignore=shutil.ignore_patterns("__pycache__", "*.so"))
-    shutil.copytree("/repo/default_settings", f"{tmp}/default_settings")
+    shutil.copytree(f"{SRC}/src/lian", f"{tmp}/src/lian", ignore=shutil.ignore_patterns("__pycache__", "*.so"))
+    shutil.copytree(f"{SRC}/default_settings", f"{tmp}/default_settings")
     n = 0
     for d, _, fs in os.walk(f"{tmp}/src/lian"):
         for f in fs:
